@@ -598,43 +598,151 @@ def malformed_stream(ctx):
 # ---------------------------------------------------------------------------
 # ResizingOperator stream
 
+DYADIC_CELLS = [Fraction(1, 8), Fraction(1, 4), Fraction(1, 2)]
+ALL_CELLS = [Fraction(k, 8) for k in (1, 2, 3, 4, 6)]
+BAD_KINDS = {'range': ['shift-right', 'shift-far', 'shift-half'],
+             'ran_shp+offset': ['neg-offset', 'big-offset']}
+
+
 def op_cases(ctx, count):
     rng = ctx.rng
     for _ in range(count):
-        ndim = rng.choice([1, 1, 2])
+        ndim = rng.choice([1, 1, 1, 2, 2, 3])
         mode = rng.choice(MODES)
-        variant = rng.choice(['ran_shp+offset', 'ran_shp+offset', 'ran_shp', 'range',
+        variant = rng.choice(['ran_shp+offset', 'ran_shp+offset', 'ran_shp', 'range', 'range',
                               'ran_shp+offset+bdry'])
+        # weightings: 'default' (cell volume), ('const', c), ('array', seed)
+        dom_w = rng.choice(['default'] * 3 + ['const', 'array'])
+        ran_w = rng.choice(['default'] * 2 + ['const', 'const', 'array']) \
+            if variant == 'range' else 'inherit'
+        if variant != 'range' and dom_w == 'array' and rng.random() < 0.8:
+            dom_w = 'const'    # ran_shp cannot extend an array weighting (finding C16-F7)
+        custom = dom_w != 'default' or ran_w not in ('default', 'inherit')
+        exact = rng.random() < 0.85
+        dom_c = rng.choice([0.5, 2.0, 4.0, 1.0]) if exact else rng.choice([3.0, 0.7, 1.3])
+        ran_c = rng.choice([3.0, 0.25, 2.0, 5.0]) if exact else rng.choice([0.3, 1.7, 2.9])
+        bad = None
+        if variant in BAD_KINDS and rng.random() < 0.12:
+            bad = rng.choice(BAD_KINDS[variant])
         axes = []
         for ax in range(ndim):
-            n = rng.randint(2, 6)
+            hi_n = 6 if ndim < 3 else 4
+            n = rng.randint(2, hi_n) if rng.random() < 0.88 else 1
             kind = rng.choice(['grow', 'grow', 'shrink', 'same'])
+            if n == 1 and kind == 'shrink':
+                kind = 'grow'
             if kind == 'grow':
-                lim = {'periodic': n, 'symmetric': n - 1}.get(mode, 4)
+                lim = {'periodic': n, 'symmetric': n - 1, 'order0': 3,
+                       'order1': 3 if n >= 2 else 0}.get(mode, 3)
                 l, r = rng.randint(0, lim), rng.randint(0, lim)
                 if variant == 'ran_shp':      # the code splits evenly, left gets the extra cell
                     tot = rng.randint(1, 2 * lim - 1) if lim > 0 else 0
                     l, r = tot - tot // 2, tot // 2
                 m, off = n + l + r, l
-                if m == n:
+                if m == n and lim > 0:
                     m, off = n + 1, 1
             elif kind == 'shrink':
-                m = rng.randint(2, n - 1) if n > 2 else 1
+                m = rng.randint(2, n - 1) if (n > 2 and rng.random() < 0.85) else 1
                 off = rng.randint(0, n - m)
                 if variant == 'ran_shp':
                     off = -((m - n) - (m - n) // 2)
             else:
                 m, off = n, 0
             lo = Fraction(rng.randint(-8, 8), 4)
-            cell = Fraction(rng.choice([1, 2, 3, 4, 6]), 8)
+            cell = rng.choice(DYADIC_CELLS if (custom and exact) else ALL_CELLS)
             bdry = rng.choice([(False, False)] * 5 + [(True, True), (True, False), (False, True)])
             if min(n, m) < 2:
                 bdry = (False, False)
-            axes.append(dict(n=n, m=m, off=off, lo=lo, cell=cell, bdry=bdry))
+            axes.append(dict(n=n, m=m, off=off, lo=str(lo), cell=str(cell), bdry=list(bdry)))
+        if bad is not None:
+            cand = [k for k, a in enumerate(axes) if a['m'] != a['n']]
+            if not cand:
+                bad = None
+            else:
+                axes[rng.choice(cand)]['bad'] = bad
         c = rng.choice([1, -2]) if mode == 'constant' and rng.random() < 0.3 else 0
-        yield dict(kind='operator', mode=mode, variant=variant, c=c,
-                   axes=[dict(a, lo=str(a['lo']), cell=str(a['cell']), bdry=list(a['bdry']))
-                         for a in axes], vseed=rng.getrandbits(32))
+        yield dict(kind='operator', mode=mode, variant=variant, c=c, axes=axes, bad=bad,
+                   dom_w=dom_w, ran_w=ran_w, dom_c=dom_c, ran_c=ran_c, exact=exact,
+                   dtype=rng.choice(['float64'] * 4 + ['float32', 'complex128']),
+                   vseed=rng.getrandbits(32))
+
+
+def make_weighting(kind, const, shape, r, domain_side, exact, dtype='float64'):
+    """kwargs for uniform_discr; domain-side array weights are powers of two (exact division)."""
+    if kind in ('default', 'inherit'):
+        return {}
+    if kind == 'const':
+        return {'weighting': const}
+    size = int(np.prod(shape))
+    if domain_side and exact:
+        vals = [r.choice([0.5, 1.0, 2.0, 4.0]) for _ in range(size)]
+    elif exact:
+        vals = [float(r.randint(1, 6)) for _ in range(size)]
+    else:
+        vals = [r.choice([0.3, 1.1, 2.7, 0.9]) for _ in range(size)]
+    return {'weighting': np.array(vals, dtype='float32' if dtype == 'float32' else 'float64')
+            .reshape(shape)}
+
+
+def tensor_weights(space):
+    """Weights of the tensor space behind `space` as a full array (const -> constant array)."""
+    w = space.weighting
+    if hasattr(w, 'const'):
+        return np.full(space.shape, float(w.const))
+    if hasattr(w, 'array'):
+        return np.asarray(w.array, dtype=float).reshape(space.shape)
+    return np.ones(space.shape)
+
+
+def bdry_weights(space):
+    """Relative weights of the cells in `space.inner`: per axis the boundary-cell fractions at
+    the first/last entry (both on a single entry), 1 inside; product over the axes."""
+    w = np.ones(space.shape)
+    if not space.is_uniform or space.is_uniformly_weighted:
+        return w
+    for ax, (fl_, fr_) in enumerate(space.partition.boundary_cell_fractions):
+        v = np.ones(space.shape[ax])
+        v[0] *= fl_
+        v[-1] *= fr_
+        shp = [1] * space.ndim
+        shp[ax] = -1
+        w = w * v.reshape(shp)
+    return w
+
+
+def wtxt(space):
+    w = space.weighting
+    if hasattr(w, 'const'):
+        return 'const:' + fs(float(w.const))
+    return 'array:' + fl(np.asarray(w.array, dtype=float).ravel().tolist())
+
+
+def num_eq(a, b, exact, dtype='float64'):
+    a, b = complex(a), complex(b)
+    if exact:
+        return a == b
+    rel = 1e-4 if dtype == 'float32' else 1e-9
+    return abs(a - b) <= rel * max(1.0, abs(a), abs(b))
+
+
+def arr_eq(a, b, exact, dtype='float64'):
+    a, b = np.asarray(a), np.asarray(b)
+    if a.shape != b.shape:
+        return False
+    if exact:
+        return bool(np.array_equal(a, b))
+    rel = 1e-4 if dtype == 'float32' else 1e-9
+    scale = max(1.0, float(np.max(np.abs(b))) if b.size else 1.0)
+    return bool(np.all(np.abs(a - b) <= rel * scale))
+
+
+def shift_err_kind(e):
+    s = str(e)
+    if 'non-multiple' in s:
+        return 'err:shift-not-multiple'
+    if 'not contained in the larger one' in s:
+        return 'err:not-contained'
+    return 'err:' + type(e).__name__ + ':' + s[:80]
 
 
 def run_op_case(ctx, case):
@@ -646,6 +754,7 @@ def run_op_case(ctx, case):
         problems.append((tag, text))
     axes = case['axes']
     ndim = len(axes)
+    exact = case['exact']
     n = [a['n'] for a in axes]
     m = [a['m'] for a in axes]
     offs = [a['off'] for a in axes]
@@ -659,34 +768,77 @@ def run_op_case(ctx, case):
     hi = [lo[k] + (n[k] - Fraction(1, 2) * (int(dom_bdry[k][0]) + int(dom_bdry[k][1]))) * cell[k]
           for k in range(ndim)]
     lines, answers = [], []
+    r = random.Random(case['vseed'])
+    badk = [k for k, a in enumerate(axes) if a.get('bad')]
+    badk = badk[0] if badk else None
+    badkind = axes[badk]['bad'] if badk is not None else None
 
     def nob(fl_):
         return fl_ if ndim > 1 else fl_[0]
     try:
         dom = odl.uniform_discr([float(v) for v in lo], [float(v) for v in hi], n,
-                                nodes_on_bdry=nob(dom_bdry))
+                                nodes_on_bdry=nob(dom_bdry), dtype=case['dtype'],
+                                **make_weighting(case['dom_w'], case['dom_c'], tuple(n), r, True,
+                                                 exact, case['dtype']))
+    except Exception as e:  # noqa
+        return [('harness', 'could not build the domain: {}'.format(e))], [], []
+    rdesc = None
+    try:
         kw = dict(pad_mode=mode, pad_const=case['c'])
+        call_offs = list(offs)
+        if badkind == 'neg-offset':
+            call_offs[badk] = -rng_pos(r)
+        elif badkind == 'big-offset':
+            call_offs[badk] = abs(m[badk] - n[badk]) + rng_pos(r)
         if variant == 'ran_shp':
             op = odl.ResizingOperator(dom, ran_shp=m, **kw)
         elif variant == 'ran_shp+offset':
-            op = odl.ResizingOperator(dom, ran_shp=m, offset=offs, **kw)
+            op = odl.ResizingOperator(dom, ran_shp=m, offset=call_offs, **kw)
         elif variant == 'ran_shp+offset+bdry':
-            op = odl.ResizingOperator(dom, ran_shp=m, offset=offs,
+            op = odl.ResizingOperator(dom, ran_shp=m, offset=call_offs,
                                       discr_kwargs={'nodes_on_bdry': nob(new_bdry)}, **kw)
         else:
             # explicit range: the interval physically shifted by `off` cells
             rlo, rhi = [], []
             for k in range(ndim):
                 sgn = -1 if m[k] >= n[k] else 1
-                rlo.append(lo[k] + sgn * offs[k] * cell[k])
+                shift = Fraction(offs[k])
+                if k == badk:
+                    d = abs(m[k] - n[k])
+                    shift = {'shift-right': Fraction(-rng_pos(r)), 'shift-far': Fraction(d + rng_pos(r)),
+                             'shift-half': Fraction(offs[k]) + Fraction(1, 2)}[badkind]
+                rlo.append(lo[k] + sgn * shift * cell[k])
                 rhi.append(rlo[-1] + (m[k] - Fraction(1, 2) * (int(dom_bdry[k][0]) +
                                                               int(dom_bdry[k][1]))) * cell[k])
-            ran = odl.uniform_discr([float(v) for v in rlo], [float(v) for v in rhi], m,
-                                    nodes_on_bdry=nob(dom_bdry))
-            op = odl.ResizingOperator(dom, ran, **kw)
+            rdesc = (rlo, rhi)
+            ran_in = odl.uniform_discr([float(v) for v in rlo], [float(v) for v in rhi], m,
+                                       nodes_on_bdry=nob(dom_bdry), dtype=case['dtype'],
+                                       **make_weighting(case['ran_w'], case['ran_c'], tuple(m), r,
+                                                        False, exact, case['dtype']))
+            op = odl.ResizingOperator(dom, ran_in, **kw)
     except Exception as e:  # noqa
+        if badkind is not None:
+            if not isinstance(e, ValueError):
+                bad('inconsistent-spaces', 'inconsistent request ({}) raised {} instead of '
+                    'ValueError: {}'.format(badkind, type(e).__name__, str(e)[:160]))
+            elif rdesc is not None:
+                k = badk
+                lines.append('offsp lo={} hi={} n={} bl={} br={} rlo={} rhi={} rn={} rbl={} rbr={}'
+                             .format(fs(lo[k]), fs(hi[k]), n[k], int(dom_bdry[k][0]),
+                                     int(dom_bdry[k][1]), fs(rdesc[0][k]), fs(rdesc[1][k]), m[k],
+                                     int(dom_bdry[k][0]), int(dom_bdry[k][1])))
+                answers.append(shift_err_kind(e))
+            return problems, lines, answers
+        if case['dom_w'] == 'array' and variant != 'range' and isinstance(e, ValueError) and \
+                'array-like weights must have same shape' in str(e):
+            return [('construction-array-weighting', 'ResizingOperator(domain with an array '
+                     'weighting, ran_shp=...) cannot be constructed: ' + str(e)[:120])], [], []
         return [('construction', 'construction failed: {}: {}'.format(
             type(e).__name__, str(e)[:200]))], [], []
+    if badkind is not None:
+        return [('inconsistent-spaces',
+                 'inconsistent request ({}, axis {}: {} -> {} cells) was accepted: range {} '
+                 'offset {}'.format(badkind, badk, n[badk], m[badk], op.range, op.offset))], [], []
     try:
         ran = op.range
         dcs = [core.frac(v) for v in dom.cell_sides]
@@ -720,11 +872,9 @@ def run_op_case(ctx, case):
                     '{} in the range but {} in the domain'.format(
                         k, n[k], m[k], offs[k], [str(v) for v in blockr][:4],
                         [str(v) for v in blockd][:4]))
-        # model of _resize_discr (variants built from ran_shp)
-        if variant != 'range':
-            for k in range(ndim):
-                if n[k] == m[k]:
-                    continue
+        # model of _resize_discr (every axis, also the unaffected ones) / _offset_from_spaces
+        for k in range(ndim):
+            if variant != 'range':
                 offtxt = 'none' if variant == 'ran_shp' else str(offs[k])
                 lines.append('discr lo={} hi={} n={} bl={} br={} nnew={} off={} bl2={} br2={}'
                              .format(fs(lo[k]), fs(hi[k]), n[k], int(dom_bdry[k][0]),
@@ -734,10 +884,15 @@ def run_op_case(ctx, case):
                 answers.append('ok lo={} hi={} cell={} shift={}'.format(
                     fs(core.frac(ran.min_pt[k])), fs(core.frac(ran.max_pt[k])), fs(rcs[k]),
                     fs(shift)))
+            rb = new_bdry[k] if variant != 'range' else dom_bdry[k]
+            lines.append('offsp lo={} hi={} n={} bl={} br={} rlo={} rhi={} rn={} rbl={} rbr={}'
+                         .format(fs(lo[k]), fs(hi[k]), n[k], int(dom_bdry[k][0]),
+                                 int(dom_bdry[k][1]), fs(core.frac(ran.min_pt[k])),
+                                 fs(core.frac(ran.max_pt[k])), m[k], int(rb[0]), int(rb[1])))
+            answers.append('ok off={}'.format(off_used[k]))
         # action on elements
-        r = random.Random(case['vseed'])
-        x = rand_data(r, tuple(n), 'float64')
-        y = rand_data(r, tuple(m), 'float64')
+        x = rand_data(r, tuple(n), case['dtype'])
+        y = rand_data(r, tuple(m), case['dtype'])
         rx = op(x).asarray()
         if mode == 'constant' and case['c'] != 0:
             try:
@@ -747,9 +902,9 @@ def run_op_case(ctx, case):
                 pass
             d = op.derivative(dom.element(x))
             exp0 = expected_forward(x, tuple(m), off_used, mode, 0)
-            if ilist(d(x).asarray()) != ilist(exp0):
+            if exp0 is None or ilist(d(x).asarray()) != ilist(exp0):
                 bad('derivative', 'derivative is not the zero-padding operator')
-        exp = expected_forward(x, tuple(m), off_used, mode, float(case['c']))
+        exp = expected_forward(x, tuple(m), off_used, mode, case['c'])
         if exp is None:
             bad('call', 'operator call accepted an inadmissible padding')
         elif ilist(rx) != ilist(exp):
@@ -758,31 +913,51 @@ def run_op_case(ctx, case):
         if op.is_linear:
             adj = op.adjoint
             aty = adj(y)
-            lhs = core.frac(op(x).inner(ran.element(y)))
-            rhs = core.frac(dom.element(x).inner(aty))
-            # cell volumes are dyadic and entries small integers: both sides exact
-            if lhs != rhs:
+            lhs = op(x).inner(ran.element(y))
+            rhs = dom.element(x).inner(aty)
+            if not num_eq(lhs, rhs, exact, case['dtype']):
                 bad('adjoint-identity', '<Ax, y> = {} but <x, A*y> = {} (inner products of '
                     'range and domain)'.format(lhs, rhs))
-            # value of the adjoint: W_dom^-1 R^T W_ran y with the boundary-cell fractions of
-            # the inner products (all 1 without nodes on the boundary)
-            wr, wd = bdry_weights(ran), bdry_weights(dom)
+            # value of the adjoint: W_dom^-1 R^T W_ran y with the weights of the inner products
+            # (tensor-space weighting times boundary-cell fractions)
+            WR = tensor_weights(ran) * bdry_weights(ran)
+            WD = tensor_weights(dom) * bdry_weights(dom)
             st, raw = call_resize(dict(newshape=n, off=off_used, mode=mode, c=0, dir='adjoint'),
-                                  wr * y)
-            if st != 'ok' or ilist(raw / wd) != ilist(aty.asarray()):
-                bad('adjoint-call', 'adjoint(y) is not resize_array(fractions(range) * y, '
-                    'direction=adjoint) / fractions(domain)')
-            if ndim == 1:
-                fr_ = [core.frac(v) for v in ran.partition.boundary_cell_fractions[0]]
-                fd_ = [core.frac(v) for v in dom.partition.boundary_cell_fractions[0]]
-                lines.append('opadj mode={} m={} n={} off={} fl={} fr={} gl={} gr={} data={}'
-                             .format(mode, m[0], n[0], off_used[0], fs(fr_[0]), fs(fr_[1]),
-                                     fs(fd_[0]), fs(fd_[1]), fl(y.ravel().tolist())))
-                answers.append('ok r=' + fl(aty.asarray().ravel().tolist()))
+                                  WR * y)
+            if st != 'ok' or not arr_eq(raw / WD, aty.asarray(), exact, case['dtype']):
+                bad('adjoint-call', 'adjoint(y) is not W_dom^-1 resize_array(W_ran y, '
+                    'direction=adjoint)')
+            if exact and not np.iscomplexobj(y):
+                if ndim == 1:
+                    fr_ = [core.frac(v) for v in ran.partition.boundary_cell_fractions[0]]
+                    fd_ = [core.frac(v) for v in dom.partition.boundary_cell_fractions[0]]
+                    lines.append('opadj mode={} m={} n={} off={} wr={} fl={} fr={} wd={} gl={} '
+                                 'gr={} data={}'.format(
+                                     mode, m[0], n[0], off_used[0], wtxt(ran), fs(fr_[0]),
+                                     fs(fr_[1]), wtxt(dom), fs(fd_[0]), fs(fd_[1]),
+                                     fl(y.ravel().tolist())))
+                    answers.append('ok r=' + fl(aty.asarray().ravel().tolist()))
+                if int(np.prod(n)) * int(np.prod(m)) <= 1500:
+                    lines.append('opadjnd mode={} shape={} newshape={} off={} wr={} wd={} data={}'
+                                 .format(mode, fl(m), fl(n), fl(off_used), fl(WR.ravel().tolist()),
+                                         fl(WD.ravel().tolist()), fl(y.ravel().tolist())))
+                    answers.append('ok r=' + fl(aty.asarray().ravel().tolist()))
             if adj.adjoint is not op:
                 bad('adjoint-adjoint', 'adjoint.adjoint is not the operator')
             if adj.domain != ran or adj.range != dom:
                 bad('adjoint-spaces', 'adjoint domain/range wrong')
+            # (pseudo-)inverse of the adjoint
+            try:
+                ainv = adj.inverse
+                if ainv.domain != dom or ainv.range != ran:
+                    bad('adjoint-inverse', 'adjoint.inverse domain/range wrong')
+                elif all(mm >= nn for nn, mm in zip(n, m)):
+                    back = adj(ainv(dom.element(x))).asarray()
+                    if not arr_eq(back, x, False, case['dtype']):
+                        bad('adjoint-inverse', 'adjoint(adjoint.inverse(x)) != x on an extension')
+            except Exception as e:  # noqa
+                bad('adjoint-inverse', 'adjoint.inverse raises {}: {}'.format(
+                    type(e).__name__, str(e)[:120]))
         inv = op.inverse
         if inv.domain != ran or inv.range != dom:
             bad('inverse-spaces', 'inverse domain/range wrong')
@@ -795,18 +970,8 @@ def run_op_case(ctx, case):
     return problems, lines, answers
 
 
-def bdry_weights(space):
-    """Relative weights of the cells in `space.inner`: per axis the boundary-cell fractions at
-    the first/last entry (both on a single entry), 1 inside; product over the axes."""
-    w = np.ones(space.shape)
-    for ax, (fl_, fr_) in enumerate(space.partition.boundary_cell_fractions):
-        v = np.ones(space.shape[ax])
-        v[0] *= fl_
-        v[-1] *= fr_
-        shp = [1] * space.ndim
-        shp[ax] = -1
-        w = w * v.reshape(shp)
-    return w
+def rng_pos(r):
+    return r.randint(1, 2)
 
 
 def op_key(case, tag):
@@ -819,12 +984,16 @@ def op_key(case, tag):
         else:
             cls.append('shrink(offset>0)' if a['off'] > 0 else 'shrink(offset=0)')
     nob = any(any(a['bdry']) for a in case['axes'])
-    return 'ResizingOperator {} variant={} mode={} axes={} nodes_on_bdry={}'.format(
-        tag, case['variant'], case['mode'], '/'.join(cls), 'yes' if nob else 'no')
+    return ('ResizingOperator {} variant={} mode={} axes={} nodes_on_bdry={} weighting=dom:{}/'
+            'ran:{} dtype={}{}'.format(
+                tag, case['variant'], case['mode'], '/'.join(cls), 'yes' if nob else 'no',
+                case.get('dom_w', 'default'), case.get('ran_w', 'inherit'),
+                case.get('dtype', 'float64'),
+                ' inconsistent=' + case['bad'] if case.get('bad') else ''))
 
 
 def operator_stream(ctx, deep=False, model=True):
-    count = 250 if (ctx.quick and not deep) else 2500
+    count = 300 if (ctx.quick and not deep) else 3000
     all_lines, all_answers, owners = [], [], []
     for case in op_cases(ctx, count):
         problems, lines, answers = run_op_case(ctx, case)
@@ -835,9 +1004,16 @@ def operator_stream(ctx, deep=False, model=True):
                 ctx.violation(op_key(case, tag), text[:600], dict(case, tag=tag))
         ctx.case(('operator', case['variant'], case['mode'],
                   tuple((a['m'] > a['n']) - (a['m'] < a['n']) for a in case['axes']),
-                  any(any(a['bdry']) for a in case['axes'])),
+                  any(any(a['bdry']) for a in case['axes']), case['dom_w'], case['ran_w'],
+                  case['bad']),
                  sample={'case': case} if ctx.rng.random() < 0.01 else None)
         ctx.hit('operator/' + case['variant'])
+        ctx.hit('operator/weighting/dom:{}/ran:{}'.format(case['dom_w'], case['ran_w']))
+        ctx.hit('operator/ndim={}'.format(len(case['axes'])))
+        if any(a['n'] == 1 or a['m'] == 1 for a in case['axes']):
+            ctx.hit('operator/one-cell-axis')
+        if case['bad']:
+            ctx.hit('operator/inconsistent/' + case['bad'])
         all_lines += lines
         all_answers += answers
         owners += [case] * len(lines)
@@ -848,7 +1024,8 @@ def operator_stream(ctx, deep=False, model=True):
             ctx.hit(kind + '-model')
             if impl != ans:
                 ctx.disagree({'kind': kind, 'line': line, 'case': case}, impl, ans,
-                             stream='_resize_discr' if kind == 'discr' else 'operator adjoint')
+                             stream={'discr': '_resize_discr', 'offsp': '_offset_from_spaces'}
+                             .get(kind, 'operator adjoint'))
 
 
 # ---------------------------------------------------------------------------
@@ -871,7 +1048,9 @@ def run(ctx):
     # coverage of the model's branches by this run (a silent loss of coverage must be visible)
     expected = ['{}/{}/{}'.format(m, d, c) for m in MODES for d in DIRS
                 for c in ('grow', 'shrink', 'same')]
-    expected += ['reference/' + m for m in MODES] + ['discr-model', 'opadj-model']
+    expected += ['reference/' + m for m in MODES] + ['discr-model', 'opadj-model', 'opadjnd-model', 'offsp-model',
+                 'operator/one-cell-axis', 'operator/ndim=3']
+    expected += ['operator/inconsistent/' + k for ks in BAD_KINDS.values() for k in ks]
     expected_err = ['err:offset', 'err:padconst-adjoint', 'err:order0-empty', 'err:order1-short',
                     'err:periodic-too-long', 'err:symmetric-too-long']
     unhit = [b for b in expected if not ctx.branches.get(b)] + \
